@@ -16,9 +16,9 @@ Proof.
   cbn [fold_left] in H. destruct e; cbn [wstep active_time] in *.
   - destruct paused.
     + specialize (IH _ _ H). lia.
-    + destruct (rem <=? dt) eqn:E.
-      * apply N.leb_le in E. lia.
-      * apply N.leb_gt in E. specialize (IH _ _ H). lia.
+    + specialize (IH _ _ H). lia.
+  - destruct paused; cbn [negb andb] in H; [apply (IH _ _ H)|].
+    destruct (rem =? 0) eqn:E; [apply N.eqb_eq in E; lia|apply (IH _ _ H)].
   - destruct paused; [rewrite fold_panicked in H; discriminate|]. apply (IH _ _ H).
   - apply (IH _ _ H).
   - rewrite fold_done in H. discriminate.
@@ -36,8 +36,8 @@ Lemma cut_short_gen : forall evs rem paused,
 Proof.
   induction evs as [|e evs IH]; intros rem paused H; [discriminate|].
   cbn [fold_left] in H. destruct e; cbn [wstep existsb is_cancel orb] in *; try reflexivity.
-  - destruct paused; [apply (IH _ _ H)|].
-    destruct (rem <=? dt); [rewrite fold_done in H; discriminate|apply (IH _ _ H)].
+  - destruct paused; apply (IH _ _ H).
+  - destruct (negb paused && (rem =? 0)); [rewrite fold_done in H; discriminate|apply (IH _ _ H)].
   - destruct paused; [rewrite fold_panicked in H; discriminate|apply (IH _ _ H)].
   - apply (IH _ _ H).
   - apply (IH _ _ H).
@@ -47,28 +47,56 @@ Lemma cut_short_only_by_cancel : forall delay evs,
   wrun delay evs = Done CutShort -> existsb is_cancel evs = true.
 Proof. intros delay evs H. apply (cut_short_gen evs delay false H). Qed.
 
-(* without a cancellation, with debounced stops, enough unpaused time makes it expire *)
-Lemma expires_gen : forall evs rem paused,
-  0 < rem -> stops_debounced paused evs = true -> existsb is_cancel evs = false ->
-  rem <= active_time paused evs ->
-  fold_left wstep evs (Waiting rem paused) = Done Expired.
+(* the remaining time after a history without expiry: what is left of [rem] once the unpaused
+   time is subtracted (truncated) *)
+Lemma waiting_remaining_gen : forall evs rem paused rem' paused',
+  fold_left wstep evs (Waiting rem paused) = Waiting rem' paused' ->
+  rem' = rem - active_time paused evs.
 Proof.
-  induction evs as [|e evs IH]; intros rem paused Hr Hs Hc Ha; [cbn in Ha; lia|].
-  cbn [fold_left]. destruct e; cbn [wstep active_time stops_debounced existsb is_cancel orb] in *;
-    try discriminate.
-  - destruct paused.
-    + apply IH; auto; lia.
-    + destruct (rem <=? dt) eqn:E; [apply fold_done|].
-      apply N.leb_gt in E. apply IH; auto; lia.
-  - destruct paused; [discriminate|]. apply IH; auto.
-  - apply IH; auto.
-  - apply IH; auto.
+  induction evs as [|e evs IH]; intros rem paused rem' paused' H.
+  - cbn in H. injection H as H1 H2. cbn [active_time]. lia.
+  - cbn [fold_left] in H. destruct e; cbn [wstep active_time] in *.
+    + destruct paused; specialize (IH _ _ _ _ H); lia.
+    + destruct (negb paused && (rem =? 0)); [rewrite fold_done in H; discriminate|apply (IH _ _ _ _ H)].
+    + destruct paused; [rewrite fold_panicked in H; discriminate|apply (IH _ _ _ _ H)].
+    + apply (IH _ _ _ _ H).
+    + rewrite fold_done in H. discriminate.
+    + rewrite fold_done in H. discriminate.
+    + apply (IH _ _ _ _ H).
+Qed.
+
+(* without a cancellation, with debounced stops, the wait is over or still pending with exactly
+   the unpaused time subtracted; so once the whole delay has elapsed in unpaused time and the
+   run is not stopped, the sleep branch is enabled and taking it ends the wait *)
+Lemma pending_gen : forall evs rem paused,
+  stops_debounced paused evs = true -> existsb is_cancel evs = false ->
+  fold_left wstep evs (Waiting rem paused) = Done Expired \/
+  fold_left wstep evs (Waiting rem paused) =
+    Waiting (rem - active_time paused evs) (paused_after paused evs).
+Proof.
+  induction evs as [|e evs IH]; intros rem paused Hs Hc.
+  - right. cbn. f_equal. lia.
+  - cbn [fold_left]. destruct e; cbn [wstep active_time stops_debounced existsb is_cancel orb paused_after] in *;
+      try discriminate.
+    + destruct paused.
+      * destruct (IH rem true Hs Hc) as [H|H]; [left; exact H|right; rewrite H; f_equal; lia].
+      * destruct (IH (rem - dt) false Hs Hc) as [H|H]; [left; exact H|right; rewrite H; f_equal; lia].
+    + destruct (negb paused && (rem =? 0)); [left; apply fold_done|apply IH; auto].
+    + destruct paused; [discriminate|]. apply IH; auto.
+    + apply IH; auto.
+    + apply IH; auto.
 Qed.
 
 Lemma expires : forall delay evs,
-  0 < delay -> stops_debounced false evs = true -> existsb is_cancel evs = false ->
-  delay <= active_time false evs -> wrun delay evs = Done Expired.
-Proof. intros. apply expires_gen; assumption. Qed.
+  stops_debounced false evs = true -> existsb is_cancel evs = false ->
+  delay <= active_time false evs -> paused_after false evs = false ->
+  wrun delay (evs ++ [WFire]) = Done Expired.
+Proof.
+  intros delay evs Hs Hc Ha Hp. unfold wrun. rewrite fold_left_app.
+  destruct (pending_gen evs delay false Hs Hc) as [H|H]; rewrite H; [reflexivity|].
+  cbn [fold_left wstep]. rewrite Hp. replace (delay - active_time false evs) with 0 by lia.
+  reflexivity.
+Qed.
 
 (* with debounced stops the PausableSleep never panics *)
 Lemma no_panic_gen : forall evs rem paused,
@@ -76,8 +104,8 @@ Lemma no_panic_gen : forall evs rem paused,
 Proof.
   induction evs as [|e evs IH]; intros rem paused Hs; [discriminate|].
   cbn [fold_left]. destruct e; cbn [wstep stops_debounced] in *.
-  - destruct paused; [apply IH; auto|].
-    destruct (rem <=? dt); [rewrite fold_done; discriminate|apply IH; auto].
+  - destruct paused; apply IH; auto.
+  - destruct (negb paused && (rem =? 0)); [rewrite fold_done; discriminate|apply IH; auto].
   - destruct paused; [discriminate|]. apply IH; auto.
   - apply IH; auto.
   - rewrite fold_done; discriminate.
